@@ -499,7 +499,7 @@ func Run(r *fw.Run) {
 		return
 	}
 	depth := 5
-	budget := 150 * time.Second
+	budget := 300 * time.Second
 	if !r.Quick() {
 		depth = 8
 		budget = 40 * time.Minute
